@@ -4,6 +4,7 @@ import (
 	"go/ast"
 	"go/token"
 	"go/types"
+	"golang.org/x/tools/go/cfg"
 	"sort"
 
 	"arkverif/checker/core"
@@ -634,6 +635,169 @@ func countLoop(m *core.Model, loop ast.Node) (ast.Expr, *ast.BlockStmt, bool) {
 		return be.Y, l.Body, true
 	}
 	return nil, nil, false
+}
+
+// inspectThrough visits the nodes of root like ast.Inspect (function literals excluded) and, at every call of an
+// unexported function or method of the package with a body, the nodes of that body as well, read under the bindings of
+// the call (core.Model.WithCall: parameters stand for the caller's actuals), up to depth levels. follow may veto a
+// callee (nil: all).
+func inspectThrough(m *core.Model, root ast.Node, depth int, follow func(*core.Func) bool, visit func(ast.Node) bool) {
+	ast.Inspect(root, func(n ast.Node) bool {
+		if n == nil {
+			return false
+		}
+		if _, isLit := n.(*ast.FuncLit); isLit {
+			return false
+		}
+		if !visit(n) {
+			return false
+		}
+		if call, ok := n.(*ast.CallExpr); ok && depth > 0 {
+			if k, cal, _ := m.Callee(call); k == core.CallStatic && cal != nil && cal.Body != nil && cal.Obj != nil && !cal.Obj.Exported() && (follow == nil || follow(cal)) {
+				m.WithCall(cal, call, func() { inspectThrough(m, cal.Body, depth-1, follow, visit) })
+			}
+		}
+		return true
+	})
+}
+
+// argLeaves returns the arguments with struct literals (a span or a cell bundling several scalars; naming locals and
+// expression functions resolved) replaced by their element values.
+func argLeaves(m *core.Model, args []ast.Expr) []ast.Expr {
+	var out []ast.Expr
+	var add func(e ast.Expr, depth int)
+	add = func(e ast.Expr, depth int) {
+		x := ast.Unparen(m.Inline(e))
+		if u, ok := x.(*ast.UnaryExpr); ok && u.Op == token.AND {
+			if _, isLit := ast.Unparen(u.X).(*ast.CompositeLit); isLit {
+				x = ast.Unparen(u.X)
+			}
+		}
+		if cl, ok := x.(*ast.CompositeLit); ok && depth < 3 {
+			if t := m.Info.TypeOf(cl); t != nil {
+				if _, isStruct := t.Underlying().(*types.Struct); isStruct {
+					for _, el := range cl.Elts {
+						if kv, ok := el.(*ast.KeyValueExpr); ok {
+							add(kv.Value, depth+1)
+						} else {
+							add(el, depth+1)
+						}
+					}
+					return
+				}
+			}
+		}
+		out = append(out, e)
+	}
+	for _, a := range args {
+		add(a, 0)
+	}
+	return out
+}
+
+// truthAt reports what is known about the atom selected by isAtom at the point where target (a node of f's body) is
+// evaluated: +1 the atom holds on every path reaching it, -1 it fails on every path, 0 otherwise (unknown, or target
+// not found). Knowledge comes from the branch conditions passed on the way (if, for, &&, ||, !), joined over paths.
+func truthAt(m *core.Model, f *core.Func, target ast.Node, isAtom func(ast.Expr) bool) int {
+	g := m.CFG(f)
+	if g == nil || len(g.Blocks) == 0 {
+		return 0
+	}
+	const (
+		unknown = 0
+		yes     = 1
+		no      = 2
+	)
+	fr := core.Forward(g, core.Flow[int]{
+		Entry: unknown,
+		Join: func(a, b int) int {
+			if a == b {
+				return a
+			}
+			return unknown
+		},
+		Equal: func(a, b int) bool { return a == b },
+		Node:  func(s int, _ *cfg.Block, _ ast.Node) int { return s },
+		Edge: func(s int, b *cfg.Block, succ int) (int, bool) {
+			if c := core.BlockCond(b); c != nil {
+				for _, a := range core.Assume(c, succ == 0) {
+					if isAtom(a.Expr) {
+						if a.Truth {
+							s = yes
+						} else {
+							s = no
+						}
+					}
+				}
+			}
+			return s, true
+		},
+	})
+	for _, b := range g.Blocks {
+		if !fr.Reached[b] {
+			continue
+		}
+		for _, n := range b.Nodes {
+			if n.Pos() <= target.Pos() && target.End() <= n.End() {
+				switch fr.In[b] {
+				case yes:
+					return 1
+				case no:
+					return -1
+				}
+				return 0
+			}
+		}
+	}
+	return 0
+}
+
+// indexLoop recognises a loop whose variable runs over all indices of a slice (or keys of a map): `for i := range xs`,
+// `for i, x := range xs`, `for i := range len(xs)`, `for i := 0; i < len(xs); i++`. It returns the index variable,
+// the container expression and the body.
+func indexLoop(m *core.Model, loop ast.Node) (*types.Var, ast.Expr, *ast.BlockStmt, bool) {
+	varOf := func(e ast.Expr) *types.Var {
+		if id := identOf(e); id != nil {
+			v, _ := m.Info.ObjectOf(id).(*types.Var)
+			return v
+		}
+		return nil
+	}
+	lenArg := func(e ast.Expr) ast.Expr {
+		if call, ok := ast.Unparen(m.Inline(m.StripConv(e))).(*ast.CallExpr); ok && m.IsBuiltin(call, "len") && len(call.Args) == 1 {
+			return call.Args[0]
+		}
+		return nil
+	}
+	switch l := loop.(type) {
+	case *ast.RangeStmt:
+		if l.Key == nil {
+			return nil, nil, nil, false
+		}
+		v := varOf(l.Key)
+		if v == nil {
+			return nil, nil, nil, false
+		}
+		if isInt(m.Info.TypeOf(l.X)) {
+			if xs := lenArg(l.X); xs != nil {
+				return v, xs, l.Body, true
+			}
+			return nil, nil, nil, false
+		}
+		return v, l.X, l.Body, true
+	case *ast.ForStmt:
+		n, body, ok := countLoop(m, l)
+		if !ok {
+			return nil, nil, nil, false
+		}
+		be := ast.Unparen(l.Cond).(*ast.BinaryExpr)
+		if xs := lenArg(n); xs != nil {
+			if v := varOf(be.X); v != nil {
+				return v, xs, body, true
+			}
+		}
+	}
+	return nil, nil, nil, false
 }
 
 // withCallees returns f followed by the unexported functions of the model that f calls statically, up to depth levels
